@@ -1,7 +1,7 @@
 (* Props/C06.v — data-type codecs round-trip every value.
    Statement over the codec model (Model/Codec.v; domains in Model/CodecDom.v) + exact + Print
    Assumptions only.  Elementary rows come from Gen/Types.v, Gen/CodecFacts.v. *)
-From Coq Require Import String.
+From Coq Require Import String Permutation.
 From PV Require Import Base.Bytes Base.Res Base.Proto Gen.Types Model.Codec Model.CodecDom.
 From PV Require Import Proofs.CodecRT Proofs.CodecRTAll Proofs.CodecRTFloat.
 Open Scope Z_scope.
@@ -19,9 +19,21 @@ Definition struct_dict_positional_law : Prop :=
   forall ms kvs, map fst kvs = map fst ms -> keys_nodup (map fst ms) = true ->
     encode (TStruct SPlain ms) (VDict kvs) = encode (TStruct SPlain ms) (VList (map snd kvs)).
 
+(* ... and a dict is read BY NAME: the bytes depend only on the values found under the member
+   names, so the order of the dict and keys that name no member do not matter; a missing name is
+   DataError *)
+Definition struct_dict_by_name_law : Prop :=
+  (forall ms kvs kvs', (forall m, In m ms -> dict_get kvs (fst m) = dict_get kvs' (fst m)) ->
+     encode (TStruct SPlain ms) (VDict kvs) = encode (TStruct SPlain ms) (VDict kvs'))
+  /\ (forall ms kvs kvs', Permutation kvs kvs' -> NoDup (map fst kvs) ->
+       encode (TStruct SPlain ms) (VDict kvs) = encode (TStruct SPlain ms) (VDict kvs'))
+  /\ (forall ms pre k x post, (forall m, In m ms -> fst m <> k) ->
+       encode (TStruct SPlain ms) (VDict (pre ++ (k, x) :: post)) = encode (TStruct SPlain ms) (VDict (pre ++ post)))
+  /\ (forall ms kvs m, In m ms -> ~ In (fst m) (map fst kvs) -> encode (TStruct SPlain ms) (VDict kvs) = Err DataError).
+
 Definition C06_full : Prop :=
   (forall t v rest, doc_dom t v = true -> (doc_greedy t = true -> rest = []) -> roundtrip_at t v rest)
-  /\ struct_dict_positional_law.
+  /\ struct_dict_positional_law /\ struct_dict_by_name_law.
 
 (* The code still falsifies it.  Witness: Array(UINT, UINT): encode writes no length prefix (as
    documented), so decoding the encoding of [1, 2] takes the first element for the count. *)
@@ -76,14 +88,15 @@ Definition C06_guard (t : ty) (v : val) (rest : bytes) : bool :=
   negb (wf_ty t && in_dom t v) || (greedy t && match rest with [] => false | _ => true end).
 
 Theorem C06_guarded :
-  (forall t v rest, C06_guard t v rest = false -> roundtrip_at t v rest) /\ struct_dict_positional_law.
+  (forall t v rest, C06_guard t v rest = false -> roundtrip_at t v rest)
+  /\ struct_dict_positional_law /\ struct_dict_by_name_law.
 Proof.
-  split.
-  - intros t v rest Hg. unfold C06_guard in Hg. apply Bool.orb_false_elim in Hg as [Hg Hr].
+  split; [|split; [exact struct_dict_positional|
+                   exact (conj struct_dict_lookup (conj struct_dict_permutation (conj struct_dict_extra_key struct_dict_missing_key)))]].
+  intros t v rest Hg. unfold C06_guard in Hg. apply Bool.orb_false_elim in Hg as [Hg Hr].
     apply Bool.negb_false_iff in Hg.
     apply andb_prop in Hg as [Hwf Hd].
     apply (roundtrip t v rest Hwf Hd). intros Hgr. rewrite Hgr in Hr. now destruct rest.
-  - exact struct_dict_positional.
 Qed.
 Print Assumptions C06_guarded.
 
